@@ -100,6 +100,11 @@ func (t *Tokenizer) Load(r io.Reader, handler TokenHandler) (err error) {
 	eof := false
 	var cnt int
 	cnt, err = r.Read(buf)
+	for err == nil && 0 < cnt && cnt < 4 && buf[0] == 0xEF { // a BOM must not be split over reads
+		var n int
+		n, err = r.Read(buf[cnt:])
+		cnt += n
+	}
 	buf = buf[:cnt]
 	t.mode = valueMap
 	if err != nil {
